@@ -28,6 +28,7 @@ RULE = (
     "Distinct = distinct canonical JSON."
 )
 ASSUMPTIONS = [
+    "a sample's dependent timings are taken as the runner reports them (their production by runner.Composite is covered by C18)",
     "Thespian semantics as rendered in sim/actors.py; executor thread modelled as asyncio tasks on the shared virtual loop; thread pre-emption is explored at two points only: Future.done() calls made from actor handlers, and the construction of a Sample inside Sampler.add()",
     "race control's part (bulk_add of every TaskFinished/BenchmarkComplete payload into its own InMemoryMetricsStore) is played by the harness with the real store class",
     "records are matched to requests by (name, task, operation, client id, timestamp within 1 ms); consecutive requests of one client are >= 3.9 ms apart by construction",
